@@ -48,7 +48,7 @@ type kxStep struct {
 	rps  [3]float64 // after an 's'
 	avg  float64    // after an 'a'
 	pub  [3]float64 // after a 'g' that did not panic
-	gpan bool
+	gpan [3]bool
 }
 
 func kxRun(kind string, ops []kop) []kxStep {
@@ -97,15 +97,20 @@ func kxRun(kind string, ops []kop) []kxStep {
 				return fbits(st.avg)
 			})
 		case 'g':
-			st.out = h.Safe(func() string {
-				if m.Kbps != nil {
-					st.pub = [3]float64{m.Kbps.Kbps10s(), m.Kbps.Kbps30s(), m.Kbps.Kbps300s()}
-				} else {
-					st.pub = [3]float64{m.Krps.Rps10s(), m.Krps.Rps30s(), m.Krps.Rps300s()}
-				}
-				return fbits(st.pub[0]) + "," + fbits(st.pub[1]) + "," + fbits(st.pub[2])
-			})
-			st.gpan = st.out == "panic"
+			var gs []func() float64
+			if m.Kbps != nil {
+				gs = []func() float64{m.Kbps.Kbps10s, m.Kbps.Kbps30s, m.Kbps.Kbps300s}
+			} else {
+				gs = []func() float64{m.Krps.Rps10s, m.Krps.Rps30s, m.Krps.Rps300s}
+			}
+			var ps []string
+			for w, g := range gs {
+				w, g := w, g
+				o := h.Safe(func() string { st.pub[w] = g(); return fbits(st.pub[w]) })
+				st.gpan[w] = o == "panic"
+				ps = append(ps, o)
+			}
+			st.out = strings.Join(ps, ",")
 		}
 	}
 	return res
@@ -165,12 +170,11 @@ func modelOut(o kop, kind, rep string) string {
 	case 'a':
 		return rateBits(rep, false)
 	case 'g':
-		if rep == "panic" {
-			return rep
-		}
 		ws := strings.Split(rep, ",")
 		for i, w := range ws {
-			ws[i] = rateBits(w, kind == "kbps")
+			if w != "panic" {
+				ws[i] = rateBits(w, kind == "kbps")
+			}
 		}
 		return strings.Join(ws, ",")
 	}
@@ -417,10 +421,11 @@ func kxCheck(c *h.Ctx, bucket, kind string, ops []kop) {
 	ref := newRef()
 	inDomain := true
 	nontrivial := false
+	agree := true
 	for i, o := range ops {
 		prefix := opsLine(kind, ops[:i+1]) // minimal replay: the history up to the differing step
-		if !c.Eq("step."+string(o.k), prefix, impl[i].out, modelOut(o, kind, rep[i])) {
-			break
+		if agree {                         // after the first disagreement only the property predicates are evaluated
+			agree = c.Eq("step."+string(o.k), prefix, impl[i].out, modelOut(o, kind, rep[i]))
 		}
 		switch o.k {
 		case 'S':
@@ -468,11 +473,16 @@ func kxCheck(c *h.Ctx, bucket, kind string, ops []kop) {
 				}
 			}
 		case 'g':
-			c.Hold(impl[i].gpan == !ref.started, "not_started_refused", prefix, impl[i].out, fmt.Sprintf("started=%v", ref.started))
-			if impl[i].gpan {
+			for w := 0; w < 3; w++ {
+				c.Hold(impl[i].gpan[w] == !ref.started, "not_started_refused", prefix, impl[i].out, fmt.Sprintf("started=%v", ref.started))
+			}
+			if !ref.started {
 				c.Dist["event/getter-refused"]++
 			} else if inDomain {
 				for w := 0; w < 3; w++ {
+					if impl[i].gpan[w] {
+						continue
+					}
 					q := new(big.Rat).Set(ref.rate[w])
 					if kind == "kbps" {
 						q.Mul(q, big.NewRat(8, 1000)) // bytes/s -> kbit/s
